@@ -428,6 +428,10 @@ def run(pm, ctx):
     ctx.import_rules(pm, 'C02', {'C02-R12'}, 'C09-R11',
                      'the unwrap helpers of the IR peel exactly the wrappers their names say '
                      '(shared with C02-R12)')
+    ctx.import_rules(pm, 'C02', {'C02-R4'}, 'C09-R13',
+                     'linearize_data_types / linearize_aliases place the whole parent chain (alias '
+                     'target) before the dependant: the order classes are emitted in (shared with '
+                     'C02-R4)')
     ctx.import_rules(pm, 'C05', {'C05-R3'}, 'C09-R12',
                      'field slots are written only by the attribute descriptor, which leaves a deleted field unset (shared with C05-R3)')
     from ..effects import run_decisions
